@@ -35,6 +35,14 @@ A resolve case is non-trivial when the result has at least 2 dependencies; disti
 	trees::cases(&mut r, &mut rng.fork(2), n_tree);
 	let n_coord = if ctx.thorough { 4000 } else { 700 };
 	coords::cases(&mut r, &mut rng.fork(3), n_coord);
+	// coqc spends far more time reading a resolve case than evaluating it: deal the cases round-robin
+	// into 16 shards of equal size so that the shards take equally long
+	let n = r.cases.len();
+	let shards = 16usize;
+	let mut dealt = Vec::with_capacity(n);
+	for s in 0..shards { let mut i = s; while i < n { dealt.push(std::mem::take(&mut r.cases[i])); i += shards; } }
+	r.cases = dealt;
+	r.shard_size = (n + shards - 1) / shards;
 	Ok(r)
 }
 
